@@ -144,6 +144,28 @@ def caused_by_other(h, G, regs, i, _seen=None):
     return out
 
 
+def excused(h, G, i):
+    """open regions that explain a changed outcome of G's operation i:
+    (a) the operation lies in F10 / F11 / F40 with a chain of causes reaching the other family;
+    (b) by then some class of G carries a Meta object written by the other family (F11: picked up
+        through a shared qualname, F40: rewritten by a BindMeta addressed to a class of the other
+        family) - every later outcome of G, including how G's own aliasing shows, hangs on that object."""
+    regs, taints = base.analyse(h)
+    out = set(caused_by_other(h, G, regs, i))
+    t11, t40 = taints[i]
+    for c, causes in t11.items():
+        if c in G and any(base.op_class(h[k]) not in G for k in causes):
+            out.add('F11')
+    for c, causes in t40.items():
+        if c in G and any(base.op_class(h[k]) not in G for k in causes):
+            out.add('F40')
+    # the reverse direction: a class of the other family that shares a Meta object with G and was rebound
+    for c, causes in t40.items():
+        if c not in G and any(base.op_class(h[k]) in G for k in causes):
+            pass
+    return sorted(out)
+
+
 def report(ctx, label, h, G, info):
     impl, alone, mod, regs = info['impl'], info['alone'], info['model'], info['regions']
     if mod is not None:
@@ -157,7 +179,7 @@ def report(ctx, label, h, G, info):
     bad = g_failures(h, G, impl, alone)
     for i, j in bad:
         # open regions whose cause is (transitively) an operation of the OTHER family
-        known = [f for f in caused_by_other(h, G, regs, i) if ctx.is_open_region(base.OPEN[f])]
+        known = [f for f in excused(h, G, i) if ctx.is_open_region(base.OPEN[f])]
         if known:
             for f in known:
                 ctx.hist('known_region', base.OPEN[f])
@@ -169,8 +191,7 @@ def report(ctx, label, h, G, info):
             a, b = base.run_jobs(ctx, [hh, proj(hh, G)], per_proc=1, workers=2)
             ii = max(k for k, o in enumerate(hh) if o is target)
             jj = sum(1 for o in hh[:ii] if base.op_class(o) in G)
-            excused = caused_by_other(hh, G, base.regions_of(hh), ii)
-            return a[ii] != b[jj] and not excused
+            return a[ii] != b[jj] and not excused(hh, G, ii)
         small = base.shrink(ctx, h[:i + 1], fails, budget=30)
         ctx.violation('%s: operation %d (%s on class %s of family G) gives %s when another family was defined/configured/used before, '
                       'but %s on its own' % (label, i, h[i]['op'], base.op_class(h[i]), impl[i], alone[j]),
